@@ -122,6 +122,10 @@ def run_case(case, prefix=None):
             elif k == "ack":
                 r.ack = bool(op[1])  # enabling ACK payloads switches auto-ack on pipe 0 back on (documented)
                 model.apply(["ack", bool(op[1])])
+            elif k == "power":
+                # a sleep / wake cycle inside the current role: waking up in the RX role means listening again (CE high)
+                r.power = bool(op[1])
+                model.apply(["power", bool(op[1])])
             elif k == "listen":
                 r.listen = bool(op[1])
                 model.apply(["listen", bool(op[1])])
@@ -194,7 +198,15 @@ def run_case(case, prefix=None):
             res.fail(P + "/probe-to-user-address-not-received", "a packet sent to the user's pipe-0 address %s was not "
                      "received on pipe 0 after listen=True" % model.user_p0[:aw].hex())
         res.label("probe-rx")
-    if last is not None and last[0] == "otx" and (regs[0] & 3) == 2 and (lite or regs[1] & 1):
+    # back in TX mode after a role change.  Judged only when the user never gave pipe 0 a reading address: after pipe 0 was
+    # used for reading the documentation asks for a fresh open_tx_pipe() (RX_ADDR_P0 holds the reading address), and that
+    # case is the "immediately after open_tx_pipe()" probe
+    tx_entry = (last is not None and last[0] == "listen" and not last[1] and any(o[0] == "otx" for o in case["ops"])
+                and not any(o[0] == "orx" and o[1] == 0 for o in case["ops"])
+                and not any(o[0] == "aa" and o[1] != "on" for o in case["ops"]))  # (auto-ack on pipe 0 was on at every open_tx_pipe())
+    if tx_entry:
+        res.label("probe-tx-after-role-change")
+    if last is not None and (last[0] == "otx" or tx_entry) and (regs[0] & 3) == 2 and (lite or regs[1] & 1):
         x = Raw(sim, probe)
         x.w(0, 0x0F)
         x.w(1, 0x3F)
@@ -214,7 +226,11 @@ def run_case(case, prefix=None):
             ok = r.send(b"probe")
         except SimHorizon:
             ok = "no return"
-        if ok is not True and probe.rxf:
+        if tx_entry and ok is not True:
+            # "RX/TX switching keeps ACK reception": back in TX mode the radio still hears the ACKs for its TX address
+            res.fail(P + "/send-after-tx-entry-fails", "after %r send() to a peer listening on the TX address returned %r (peer got %d payload(s))" % (
+                [o for o in case["ops"]][-4:], ok, len(probe.rxf)))
+        elif ok is not True and probe.rxf:
             res.fail(P + "/send-after-open_tx_pipe-fails", "peer listening on the TX address received the payload but "
                      "send() returned %r (ACK not received)" % (ok,))
         elif ok is not True:
@@ -244,10 +260,21 @@ def _enum(depth, aws, drv="full", core=False, min_depth=1):
     return gen
 
 
+def _enum_power(drv="full"):
+    """a sleep / wake cycle (power = False, power = True) inserted at every position of every core sequence of length 1..3"""
+    def gen():
+        for d in range(1, 4):
+            for word in itertools.product(CORE, repeat=d):
+                for pos in range(1, d + 1):
+                    ops = [list(o) for o in word]
+                    yield {"drv": drv, "aw": 5, "ops": ops[:pos] + [["power", False], ["power", True]] + ops[pos:]}
+    return gen
+
+
 def strategy(drv="full"):
     from hypothesis import strategies as st
     alpha = ALPHA_LITE if drv == "lite" else ALPHA
-    extra = [["otx", "Ts"], ["orx", 2, "B"], ["orx", 1, "As"], ["bad", "orx-pipe-1"], ["bad", "orx-empty", 1], ["bad", "orx-empty", 3], ["bad", "crx-pipe6"]]
+    extra = [["otx", "Ts"], ["orx", 2, "B"], ["orx", 1, "As"], ["power", False], ["power", True], ["power", True], ["bad", "orx-pipe-1"], ["bad", "orx-empty", 1], ["bad", "orx-empty", 3], ["bad", "crx-pipe6"]]
     return st.fixed_dictionaries({
         "drv": st.just(drv), "aw": st.sampled_from([3, 4, 5]),
         "ops": st.lists(st.sampled_from(alpha + extra), min_size=1, max_size=40),
@@ -258,7 +285,8 @@ def parts(tier):
     if tier == "quick":
         return [Part("enum-depth4", "enum", _enum(4, (3, 5)), exhaustive=True),
                 Part("enum-core8-depth5-6", "enum", _enum(6, (5,), core=True, min_depth=5), exhaustive=True),
+                Part("sleep-wake-cycle-in-core-sequences", "enum", _enum_power(), exhaustive=True),
                 Part("generated", "gen", strategy, n=2000)]
-    return [Part("enum-depth5", "enum", _enum(5, (3, 4, 5)), exhaustive=True),
+    return [Part("sleep-wake-cycle-in-core-sequences", "enum", _enum_power(), exhaustive=True), Part("enum-depth5", "enum", _enum(5, (3, 4, 5)), exhaustive=True),
             Part("enum-core8-depth7", "enum", _enum(7, (4,), core=True, min_depth=7), exhaustive=True),
             Part("generated", "gen", strategy, n=100000)]
